@@ -207,6 +207,12 @@ class FuncMixin:
         pre.old = None
         # preconditions are obligations of the caller
         k = self.ordinal("pre", node) if node is not None else 0
+        if con.terminates and target == self.cur_target and len(st.frames) == 1 and st.old is not None:
+            # recursive call: the termination measure decreases and is bounded below
+            m_new = coerce(self.spec_eval(con.terminates, pre), INT).z
+            m_old = coerce(self.spec_eval(con.terminates, st.old), INT).z
+            self.oblige(st, "dec", f"#rec{k}", z3.And(m_new < m_old, m_old >= 0),
+                        descr=f"termination measure {con.terminates!r} decreases at the recursive call", node=node)
         for i, r in enumerate(con.requires):
             gv, gax = self.spec_eval_full(r, pre)
             g = z3.And(*gax, truth(gv)) if gax else truth(gv)
@@ -221,6 +227,11 @@ class FuncMixin:
         post = pre.fork()
         post.pc = list(st.pc)
         post.old = pre
+        # time may pass inside the callee: the ghost clock moves forward (never backwards)
+        c_prev = st.ghost.get("$clock", z3.Real("clock0"))
+        c_new = z3.Real(fresh_name("clock"))
+        post.pc.append(c_new >= c_prev)
+        post.ghost["$clock"] = c_new
         writebacks = []
         for lv in con.modifies:
             post, wb = self.havoc_lvalue(post, lv, nodes)
@@ -427,6 +438,10 @@ class FuncMixin:
         given = dict(zip(order, args))
         given.update(kw)
         cur = st1
+        # ghost fields of a new object start at their zero value
+        for c in self.ct.mro(cname):
+            for gf in self.ct.classes[c].ghost:
+                cur = self.field_write(cur, ref.z, cname, gf, vals.default(self.ct.classes[c].fields[gf]))
         for f in order:
             fd = self.ct.field(cname, f)
             if f in given:
